@@ -1,4 +1,4 @@
-// UNIT V-NODE (C01, C03, C09, C14): analysis/node.rs  concat_nodes / concat_oov_nodes / NodeSplitIterator::next / split / num_splits
+// UNIT V-NODE (C01, C03, C09, C14): analysis/node.rs  concat_nodes / concat_oov_nodes / NodeSplitIterator::next / split / num_splits, stateless_tokenizer.rs split_path, mlist.rs MorphemeList::split_into
 use vstd::prelude::*;
 use vstd::string::*;
 use std::ops::Range;
@@ -24,7 +24,7 @@ fn vec_drain_range<T>(v: &mut Vec<T>, a: usize, b: usize)
 //@end
 
 // ---- opaque collaborators (assumed contracts; InputBuffer::ch_idx is under contract in the buffer units)
-pub struct LexiconSet<'a> { _p: core::marker::PhantomData<&'a ()> }
+#[verifier::external_body] pub struct LexiconSet<'a> { _p: core::marker::PhantomData<&'a ()> }
 impl<'a> LexiconSet<'a> {
     /// the word-info record the dictionary holds for `id`, restricted to `subset` (C11: a pure function of both)
     uninterp spec fn sp_word_info(&self, id: WordId, subset: InfoSubset) -> WordInfo;
@@ -34,7 +34,7 @@ impl<'a> LexiconSet<'a> {
         ensures r is Ok, r->Ok_0 == self.sp_word_info(id, subset)
     { unimplemented!() }
 }
-pub struct InputBuffer { _p: () }
+#[verifier::external_body] pub struct InputBuffer { _p: () }
 impl InputBuffer {
     uninterp spec fn sp_len(&self) -> int;            // bytes of the normalised text
     uninterp spec fn sp_ch_idx(&self, b: int) -> int; // byte offset -> code point index
@@ -175,6 +175,7 @@ impl<'a> NodeSplitIterator<'a> {
                 let n = r->Some_0; let i = old(self).index as int;
                 // the i-th sub-token is the i-th declared unit ...
                 &&& n.inner.word_id == old(self).splits@[i]
+                &&& n.inner.left_id == u16::MAX && n.inner.right_id == u16::MAX && n.inner.cost == i16::MAX && n.total_cost == i32::MAX
                 &&& n.word_info == unit_info(*old(self), i)
                 // ... starts where the previous one ended (the first: where the parent starts) ...
                 &&& n.begin_bytes == old(self).byte_offset && n.inner.begin == old(self).char_offset
@@ -206,6 +207,9 @@ fn extend_from_split(v: &mut Vec<ResultNode>, it: NodeSplitIterator)
         final(v)@.subrange(0, old(v)@.len() as int) == old(v)@,
         tiles(final(v)@.subrange(old(v)@.len() as int, final(v)@.len() as int), it.byte_offset as int, it.byte_end as int, it.char_offset as int, it.char_end as int),
         forall|i: int| 0 <= i < it.splits@.len() ==> (#[trigger] final(v)@[old(v)@.len() + i]).inner.word_id == it.splits@[i],
+        // every pushed sub-token is THE i-th unit of the parent range the iterator was created for
+        forall|i: int| 0 <= i < it.splits@.len() ==> #[trigger] final(v)@[old(v)@.len() + i]
+            == sub_node(*it.lexicon, it.splits@, it.subset, *it.text, it.byte_offset, it.byte_end, it.char_offset, it.char_end, i),
 {
     let ghost v0 = v@;
     let ghost it0 = it;
@@ -221,6 +225,11 @@ fn extend_from_split(v: &mut Vec<ResultNode>, it: NodeSplitIterator)
             tiles_prefix(v@.subrange(v0.len() as int, v@.len() as int), it0.byte_offset as int, it0.byte_end as int, it0.char_offset as int, it.byte_offset as int, it.char_offset as int),
             it.index == it.splits@.len() ==> it.byte_offset == it0.byte_end && it.char_offset == it0.char_end,
             forall|i: int| 0 <= i < it.index ==> (#[trigger] v@[v0.len() + i]).inner.word_id == it0.splits@[i],
+            it.index < it.splits@.len() ==> it.byte_offset == sub_begin_b(*it0.lexicon, it0.splits@, it0.subset, it0.byte_offset as int, it.index as int),
+            it.index == 0 ==> it.char_offset == it0.char_offset,
+            0 < it.index < it.splits@.len() ==> it.char_offset == it0.text.sp_ch_idx(it.byte_offset as int),
+            forall|i: int| 0 <= i < it.index ==> #[trigger] v@[v0.len() + i]
+                == sub_node(*it0.lexicon, it0.splits@, it0.subset, *it0.text, it0.byte_offset, it0.byte_end, it0.char_offset, it0.char_end, i),
         ensures
             it.index == it0.splits@.len(), it.splits == it0.splits,
             v@.len() == v0.len() + it.index,
@@ -228,6 +237,8 @@ fn extend_from_split(v: &mut Vec<ResultNode>, it: NodeSplitIterator)
             tiles_prefix(v@.subrange(v0.len() as int, v@.len() as int), it0.byte_offset as int, it0.byte_end as int, it0.char_offset as int, it.byte_offset as int, it.char_offset as int),
             it.byte_offset == it0.byte_end && it.char_offset == it0.char_end,
             forall|i: int| 0 <= i < it.index ==> (#[trigger] v@[v0.len() + i]).inner.word_id == it0.splits@[i],
+            forall|i: int| 0 <= i < it.index ==> #[trigger] v@[v0.len() + i]
+                == sub_node(*it0.lexicon, it0.splits@, it0.subset, *it0.text, it0.byte_offset, it0.byte_end, it0.char_offset, it0.char_end, i),
         decreases it.splits@.len() - it.index
     {
         let ghost vb = v@;
@@ -255,6 +266,14 @@ fn extend_from_split(v: &mut Vec<ResultNode>, it: NodeSplitIterator)
                         if i < itb.index { assert(v@[v0.len() + i] == vb[v0.len() + i]); }
                     }
                     if pre.len() > 0 { assert(post[0] == pre[0]); }
+                    let i = itb.index as int;
+                    assert(units_len_of(*it0.lexicon, it0.splits@, it0.subset, 0, i + 1)
+                        == units_len_of(*it0.lexicon, it0.splits@, it0.subset, 0, i) + unit_info_of(*it0.lexicon, it0.splits@, it0.subset, i).data.head_word_length);
+                    assert(n == sub_node(*it0.lexicon, it0.splits@, it0.subset, *it0.text, it0.byte_offset, it0.byte_end, it0.char_offset, it0.char_end, i));
+                    assert forall|j: int| 0 <= j < it.index implies #[trigger] v@[v0.len() + j]
+                        == sub_node(*it0.lexicon, it0.splits@, it0.subset, *it0.text, it0.byte_offset, it0.byte_end, it0.char_offset, it0.char_end, j) by {
+                        if j < itb.index { assert(v@[v0.len() + j] == vb[v0.len() + j]); }
+                    }
                 }
             }
         }
@@ -288,7 +307,7 @@ trait DictionaryAccess {
     ensures
         res is Ok,
         mode == Mode::C ==> res->Ok_0@ == path@,
-        mode != Mode::C ==> is_expansion(path@, res->Ok_0@, mode),
+        mode != Mode::C ==> is_expansion(path@, res->Ok_0@, mode, dict.sp_lexicon(), subset, *input),
 //@  atstart
     let ghost p0 = path@;
 //@  before let mut __d = vec_into_iter(path);
@@ -299,7 +318,7 @@ trait DictionaryAccess {
             __d.items() == p0, 0 <= __d.pos() <= p0.len(), mode != Mode::C,
             forall|k: int| 0 <= k < p0.len() && decl_units(#[trigger] p0[k], mode).len() > 1 ==>
                 units_fit_of(dict.sp_lexicon(), decl_units(p0[k], mode), subset, 0, p0[k].begin_bytes as int, p0[k].end_bytes as int, input.sp_len()),
-            expansion_ok(p0.subrange(0, __d.pos()), new_path@, cuts, mode),
+            expansion_ok(p0.subrange(0, __d.pos()), new_path@, cuts, mode, dict.sp_lexicon(), subset, *input),
         decreases p0.len() - __d.pos()
 //@  before let split_len = node.num_splits(mode);
         let ghost np0 = new_path@;
@@ -309,19 +328,78 @@ trait DictionaryAccess {
             proof {
                 assert(new_path@.subrange(0, np0.len() as int) =~= np0);
                 assert(new_path@.subrange(np0.len() as int, new_path@.len() as int) =~= seq![p0[k]]);
-                lemma_expansion_push(p0.subrange(0, k), np0, cuts, p0[k], new_path@, mode);
+                lemma_expansion_push(p0.subrange(0, k), np0, cuts, p0[k], new_path@, mode, dict.sp_lexicon(), subset, *input);
                 cuts = cuts.push(new_path@.len() as int);
                 assert(p0.subrange(0, k).push(p0[k]) =~= p0.subrange(0, k + 1));
             }
 //@  after extend_from_split(&mut new_path
             proof {
-                lemma_expansion_push(p0.subrange(0, k), np0, cuts, p0[k], new_path@, mode);
+                let add = new_path@.subrange(np0.len() as int, new_path@.len() as int);
+                assert forall|i: int| 0 <= i < add.len() implies #[trigger] add[i]
+                    == sub_node(dict.sp_lexicon(), decl_units(p0[k], mode), subset, *input, p0[k].begin_bytes, p0[k].end_bytes, p0[k].inner.begin, p0[k].inner.end, i) by {
+                    assert(add[i] == new_path@[np0.len() + i]);
+                }
+                assert(units_of(add, p0[k], mode, dict.sp_lexicon(), subset, *input)) by { reveal(units_of); }
+                lemma_expansion_push(p0.subrange(0, k), np0, cuts, p0[k], new_path@, mode, dict.sp_lexicon(), subset, *input);
                 cuts = cuts.push(new_path@.len() as int);
                 assert(p0.subrange(0, k).push(p0[k]) =~= p0.subrange(0, k + 1));
             }
 //@  afterloop 1
-    proof { assert(p0.subrange(0, p0.len() as int) =~= p0); assert(expansion_ok(p0, new_path@, cuts, mode)); assert(is_expansion(p0, new_path@, mode)); }
+    proof { assert(p0.subrange(0, p0.len() as int) =~= p0); assert(expansion_ok(p0, new_path@, cuts, mode, dict.sp_lexicon(), subset, *input)); assert(is_expansion(p0, new_path@, mode, dict.sp_lexicon(), subset, *input)); }
 //@end
+
+// ---- MorphemeList (analysis/mlist.rs): the on-demand split API (C09)
+//@include common/mlist_types.rs.inc
+impl<T: DictionaryAccess> MorphemeList<T> {
+//@extract sudachi/src/analysis/mlist.rs :: impl<T: DictionaryAccess> MorphemeList<T> :: fn split_into
+//@  rw R11 1 custom
+//@  | for n in (node\.split\([^;{}]*?\)) \{\s*data\.push\(n\);\s*\}
+//@  > extend_from_split(data, \1);
+//@  ret r
+//@  spec
+        requires
+            index < self.nodes.data@.len(),
+            // C09's hypothesis for the morpheme that is split: its declared units concatenate to its key
+            decl_units(self.nodes.data@[index as int], mode).len() >= 1 ==> units_fit_of(self.dict.sp_lexicon(), decl_units(self.nodes.data@[index as int], mode),
+                self.input.sp_subset(), 0, self.nodes.data@[index as int].begin_bytes as int, self.nodes.data@[index as int].end_bytes as int, self.input.sp_input().sp_len()),
+        ensures
+            r is Ok,
+            ({
+                let node = self.nodes.data@[index as int];
+                let units = decl_units(node, mode);
+                let d0 = old(out).nodes.data@;
+                let d1 = final(out).nodes.data@;
+                // a word declaring no unit: nothing was split, the output list is untouched
+                &&& r->Ok_0 == (units.len() > 0)
+                &&& (units.len() == 0 ==> *final(out) == *old(out))
+                // otherwise exactly the declared units are APPENDED, the list now shares this list's text, and the units partition the parent
+                &&& (units.len() > 0 ==> final(out).input == self.input && final(out).dict == old(out).dict
+                        && d1.len() == d0.len() + units.len() && d1.subrange(0, d0.len() as int) == d0
+                        && units_of(d1.subrange(d0.len() as int, d1.len() as int), node, mode, self.dict.sp_lexicon(), self.input.sp_subset(), self.input.sp_input())
+                        && tiles(d1.subrange(d0.len() as int, d1.len() as int), node.begin_bytes as int, node.end_bytes as int, node.inner.begin as int, node.inner.end as int))
+            }),
+//@  atstart
+        let ghost d0 = out.nodes.data@;
+//@  after extend_from_split(data
+            proof {
+                let add = data@.subrange(d0.len() as int, data@.len() as int);
+                assert forall|i: int| 0 <= i < add.len() implies #[trigger] add[i]
+                    == sub_node(self.dict.sp_lexicon(), decl_units(*node, mode), subset, self.input.sp_input(), node.begin_bytes, node.end_bytes, node.inner.begin, node.inner.end, i) by {
+                    assert(add[i] == data@[d0.len() + i]);
+                }
+                assert(units_of(add, *node, mode, self.dict.sp_lexicon(), self.input.sp_subset(), self.input.sp_input())) by { reveal(units_of); }
+            }
+//@end
+}
+/// C09: splitting a morpheme on demand yields the same sub-tokens as tokenising directly in that mode -- both are `units_of` the parent
+/// (split_path: exp_elem; split_into: its postcondition) for the same dictionary, field request and text
+proof fn theorem_split_api_is_direct(direct: Seq<ResultNode>, on_demand: Seq<ResultNode>, parent: ResultNode, mode: Mode, lex: LexiconSet, subset: InfoSubset, text: InputBuffer)
+    requires units_of(direct, parent, mode, lex, subset, text), units_of(on_demand, parent, mode, lex, subset, text)
+    ensures direct == on_demand
+{
+    reveal(units_of);
+    assert(direct =~= on_demand);
+}
 
 } // verus!
 fn main() {}
